@@ -71,6 +71,11 @@ def regenerate():
         info['msgs'].append((out + err).strip())
         if rc != 0:
             info['ok'] = False
+    kw = os.path.join(ROOT, 'translator', 'keywords.py')
+    rc, out, err = sh([sys.executable, kw, REPO, os.path.join(COQ, 'Gen')], timeout=60)
+    info['msgs'].append((out + err).strip())
+    if rc != 0:
+        info['ok'] = False
     aud = os.path.join(ROOT, 'translator', 'audits.py')
     if os.path.exists(aud):
         rc, out, err = sh([sys.executable, aud, REPO, os.path.join(COQ, 'Gen')], timeout=300)
